@@ -377,6 +377,8 @@ class SymArray(_nd):
         dt = _np.dtype(dtype)
         if dt == object:
             return _nd.astype(self, dtype, *a, **kw)
+        if dt.kind == "f" and symbolic_mode() and self.dtype == object:
+            return self.copy()          # stays an object array: symbolic values may be stored into it later
         if has_sym(self):
             if dt.kind == "f":
                 return self.copy()
